@@ -87,6 +87,12 @@ def items(tier, seed):
                     if u != v:
                         out.append({"k": "getvalues_pair", "qt": qt, "u": u, "v": v, "ka": KINDS[len(out) % 3], "n": 2})
     for op in OPS:
+        for ka in KINDS:
+            for side in ("left", "right"):
+                for kk in ("np.int64", "np.float64", "np.int32"):
+                    out.append({"k": "op_number", "a": "m", "op": op, "ka": ka, "side": side, "n": 2, "kk": kk})
+                out.append({"k": "aux_float_edge", "op": op, "ka": ka, "side": side})
+    for op in OPS:
         for kb in ("list", "tuple"):
             out.append({"k": "aux_int_dtype", "op": op, "kb": kb, "b": "cm"})
             out.append({"k": "aux_int_dtype", "op": op, "kb": kb, "b": "m"})
@@ -223,7 +229,9 @@ def run(cfg, V):
         return {"dbs": res}
     if k == "op_number":
         xa = [V["a%d" % i] for i in range(cfg["n"])]
-        kk = V["c0"]
+        if cfg.get("kk"):
+            xa = [1.5, -2.25, 4.0][:cfg["n"]]  # numpy scalars are C objects: concrete amounts with them (enumerated, as in C09)
+        kk = V["c0"] if not cfg.get("kk") else {"np.int64": numpy.int64(3), "np.float64": numpy.float64(2.5), "np.int32": numpy.int32(-2)}[cfg["kk"]]
         A = _array(cfg["a"], cfg["ka"], xa)
         f = (lambda o: _apply(cfg["op"], kk, o)) if cfg["side"] == "left" else (lambda o: _apply(cfg["op"], o, kk))
         res = _attempt(lambda: f(A))
@@ -237,6 +245,17 @@ def run(cfg, V):
         xa = [V["a%d" % i] for i in range(cfg["n"])]
         A = Array(_container(cfg["ka"], xa), cfg["u"], cfg["qt"])
         return {"vals": list(A.GetValues(cfg["v"])), "copy_vals": list(A.CreateCopy(unit=cfg["v"]).GetValues()), "scalar": [Scalar(x, cfg["u"], cfg["qt"]).GetValue(cfg["v"]) for x in xa]}
+    if k == "aux_float_edge":
+        vals = [1.0, 6.0, 0.9, 0.3]
+        bad = []
+        for kk in (0.1, 0.3, 3.0):
+            A = Array(_container(cfg["ka"], vals), "m")
+            f = (lambda o: _apply(cfg["op"], kk, o)) if cfg["side"] == "left" else (lambda o: _apply(cfg["op"], o, kk))
+            got = [float(v) for v in f(A).GetValues()]
+            want = [float(f(Scalar(v, "m")).GetValue()) for v in vals]
+            if got != want:
+                bad.append((kk, got, want))
+        return {"aux_bad": bad}
     if k == "aux_int_dtype":
         ia, fb = [1, 2, 3], [0.5, 1.25, 2.75]
         A = Array(numpy.array(ia), "m")
@@ -315,6 +334,8 @@ def props(cfg, T, obs):
         return [("GetValues/CreateCopy between units that share a registered NAME still convert like the Scalars",
                  z3.And(z3.BoolVal(len(obs["vals"]) == len(obs["scalar"]) == len(obs["copy_vals"])), *[approx(a, b) for a, b in zip(obs["vals"], obs["scalar"])],
                         *[approx(a, b) for a, b in zip(obs["copy_vals"], obs["scalar"])]))]
+    if k == "aux_float_edge":
+        return [("auxiliary, concrete (not solver-decided): decimal-looking amounts (1.0 // 0.1, 0.9 // 0.3 ...) give bit-identical Array and Scalar results", obs["aux_bad"] == [])]
     if k == "aux_int_dtype":
         ok = len(obs["vals"]) == 3 and all(abs(a - b) <= 1e-12 * (abs(a) + abs(b) + 1) for a, b in zip(obs["vals"], obs["want"])) and obs["unit"][0] == obs["unit"][1]
         return [("auxiliary, concrete (not solver-decided): an integer-dtype ndarray operand with a fractional list operand equals the Scalar results", ok)]
